@@ -13,7 +13,11 @@ COQ_DEPS = ["Common/ListX.v", "Common/ObsHash.v", "Generated/Tables.v", "Model/S
 COQ_IMPORTS = "From Mesa Require Import Generated.Tables Model.Signals."
 COQ_CASE_TYPE = "case"
 COQ_RUN = "run_case"
-TABLE_CONSTRUCTS = ["sig_tables"]
+TABLE_CONSTRUCTS = ["sig_tables", "dg_shadowing"]
+SIG = "mesa/experimental/mesa_signals/"
+SOURCE_FUNCS = [(SIG + "mesa_signal.py", "BaseObservable.__set__"), (SIG + "mesa_signal.py", "Observable.__set__"),
+                (SIG + "mesa_signal.py", "HasObservables"), (SIG + "mesa_signal.py", "descriptor_generator"),
+                (SIG + "mesa_signal.py", "All"), (SIG + "observable_collections.py", "*"), (SIG + "signals_util.py", "*")]
 ENUM_ALWAYS = False
 RULE = ("histories = one HasObservables class with 2-4 Observable/ObservableList attributes (declared in a base class and "
         "a subclass, sometimes an attribute overridden with the other kind), 1-2 instances, 2-5 handlers (functions and "
@@ -122,11 +126,23 @@ def _gen_decl(rng, force_mixed=False):
         d = {"kind": k, "where": rng.choice(["base", "sub", "sub"]), "override": None, "fallback": None}
         if k == "obs" and rng.random() < 0.4:
             d["fallback"] = rng.randint(-2, 7)
-        if rng.random() < 0.08:
+        r = rng.random()
+        if r < 0.08:
             d["where"] = "sub"
             d["override"] = "list" if k == "obs" else "obs"
+        elif r < 0.11:
+            d["where"] = "sub"
+            d["override"] = "plain"       # the base class binds the name to a plain value
         decl.append(d)
     return decl
+
+
+def _gen_extra(rng):
+    """names the base class declares as observables and the subclass shadows with a plain attribute:
+    not observables of the instance (ids from 100)"""
+    if rng.random() < 0.12:
+        return [{"id": 100 + j, "base": rng.choice(["obs", "list"])} for j in range(rng.randint(1, 2))]
+    return []
 
 
 def _gen_init(rng, decl):
@@ -154,12 +170,14 @@ def _gen_handlers(rng):
     return hs
 
 
-def _name_pick(rng, decl):
+def _name_pick(rng, decl, extra=()):
     r = rng.random()
     if r < 0.55:
         return rng.randrange(len(decl))
     if r < 0.92:
         return "all"
+    if extra and r < 0.97:
+        return rng.choice(extra)["id"]
     return UNKNOWN_NAME
 
 
@@ -180,7 +198,8 @@ def _gen_history(rng, nops, dup_stream=False, force_mixed=False):
     n_inst = 1 if rng.random() < 0.6 else 2
     init = [_gen_init(rng, decl) for _ in range(n_inst)]
     handlers = _gen_handlers(rng)
-    case = {"decl": decl, "init": init, "handlers": handlers, "dup": dup_stream, "ops": []}
+    extra = _gen_extra(rng)
+    case = {"decl": decl, "extra": extra, "init": init, "handlers": handlers, "dup": dup_stream, "ops": []}
     orc = _Oracle(case)               # generator-side bookkeeping (spec semantics), to steer towards valid histories
     shadow = [[(list(v) if isinstance(v, list) else v) for v in row] for row in init]
     alive = {h[0] for h in handlers}
@@ -194,7 +213,7 @@ def _gen_history(rng, nops, dup_stream=False, force_mixed=False):
             if not alive:
                 continue
             h = rng.choice(sorted(alive))
-            nm = _name_pick(rng, decl)
+            nm = _name_pick(rng, decl, extra)
             ty = _type_pick(rng, decl, nm)
             if not dup_stream and orc.would_double(i, nm, ty, h):
                 continue
@@ -204,7 +223,7 @@ def _gen_history(rng, nops, dup_stream=False, force_mixed=False):
             if not alive:
                 continue
             h = rng.choice(sorted(alive))
-            nm = _name_pick(rng, decl)
+            nm = _name_pick(rng, decl, extra)
             ty = _type_pick(rng, decl, nm)
             ops.append(["unobserve", i, nm, ty, h])
             orc.spec_unobserve(i, nm, ty, h)
@@ -433,10 +452,12 @@ def _enc_idx(ix):
 _MISSING = object()
 
 
-def _build_class(decl):
+def _build_class(decl, extra=()):
     from mesa.experimental.mesa_signals import HasObservables, Observable, ObservableList
 
     def mk(kind, fb):
+        if kind == "plain":
+            return 0
         if kind == "obs":
             return Observable() if fb is None else Observable(fallback_value=fb)
         return ObservableList()
@@ -451,6 +472,9 @@ def _build_class(decl):
             base_ns[nm] = mk(d["kind"], d.get("fallback"))
         else:
             sub_ns[nm] = mk(d["kind"], d.get("fallback"))
+    for x in extra:
+        base_ns[f"x{x['id']}"] = mk(x["base"], None)
+        sub_ns[f"x{x['id']}"] = 0
     Base = type("Base", (HasObservables,), base_ns)
 
     def __init__(self, init):
@@ -507,7 +531,9 @@ def run_impl(case):
 
     decl = case["decl"]
     k = len(decl)
-    cls = _build_class(decl)
+    extra = case.get("extra", [])
+    extra_ids = {x["id"] for x in extra}
+    cls = _build_class(decl, extra)
     objs = [cls(init) for init in case["init"]]
     ninst = len(objs)
     log = []          # (hid, signal) as the handlers are called
@@ -550,6 +576,8 @@ def run_impl(case):
     def nm_arg(nm):
         if nm == "all":
             return All()
+        if nm in extra_ids:
+            return f"x{nm}"
         return f"o{nm}" if isinstance(nm, int) and 0 <= nm < k else f"nope{nm}"
 
     def ty_arg(ty):
@@ -647,7 +675,7 @@ def run_impl(case):
                         status = [-1, E_NAME if orc.scope(nm) is None else E_TYPE]
                     if keys is None:
                         if raised is None:
-                            over = [n for n in (orc.scope(nm) or []) if decl[n].get("override")]
+                            over = [n for n in (orc.scope(nm) or []) if decl[n].get("override")] or ([nm] if nm in extra_ids else [])
                             fail("C16/observe/overridden-observable-types" if over else "C16/observe/invalid-accepted", opi,
                                  f"{op}: observe accepted an unknown observable or a signal type that is not emitted"
                                  + (f" (attribute(s) {over} override an inherited observable of another kind)" if over else ""))
@@ -925,6 +953,28 @@ def _lop(lop):
     raise ValueError(k)
 
 
+def _entry(kind, fb=None):
+    return {"obs": f"EObs {_oz(fb)}", "list": "EList", "plain": "EPlain"}[kind]
+
+
+def _mro(case):
+    """vars(Sub), vars(Base) in definition order, as _build_class creates them (most derived first)"""
+    base, sub = [], []
+    for i, d in enumerate(case["decl"]):
+        own = L.pair(L.z(i), _entry(d["kind"], d.get("fallback")))
+        if d.get("override"):
+            base.append(L.pair(L.z(i), _entry(d["override"])))
+            sub.append(own)
+        elif d["where"] == "base":
+            base.append(own)
+        else:
+            sub.append(own)
+    for x in case.get("extra", []):
+        base.append(L.pair(L.z(x["id"]), _entry(x["base"])))
+        sub.append(L.pair(L.z(x["id"]), "EPlain"))
+    return L.lst([L.lst(sub), L.lst(base)])
+
+
 def coq_case(case):
     decl = case["decl"]
     insts = L.lst([L.lst([_slot(d, v) for d, v in zip(decl, row)]) for row in case["init"]])
@@ -950,7 +1000,7 @@ def coq_case(case):
             ops.append(f"Kill {L.zlist(groups.get(op[1], []))}")
         else:
             raise ValueError(k)
-    return f"{{| c_insts := {insts}; c_ops := {L.lst(ops)} |}}"
+    return f"{{| c_mro := {_mro(case)}; c_vals := {insts}; c_ops := {L.lst(ops)} |}}"
 
 
 def op_kinds(case):
